@@ -101,9 +101,14 @@ structure Store where
   mans : List (Name × MFile)
   /-- every other file of the blobs directory -/
   junk : List (JName × Bytes) := []
+  /-- stray regular files / dangling symlinks under manifests/ (path components below manifests/); never a
+      path `host/ns/model/tag` with a valid tag, i.e. never something `Manifests` takes for a manifest -/
+  strays : List (List String) := []
+  /-- directories under manifests/ that exist although they are not on the way to any file -/
+  edirs : List (List String) := []
   deriving Inhabited
 
-def Store.empty : Store := ⟨[], [], []⟩
+def Store.empty : Store := ⟨[], [], [], [], []⟩
 
 /-- 64 hex digits (`[0-9a-fA-F]{64}` of `GetBlobsPath`) -/
 def isHex64 (s : String) : Bool :=
@@ -152,6 +157,29 @@ structure Env where
   gguf : Bytes → Option Meta
   v : Variant
 
+/-! ## the directory tree under manifests/ -/
+
+def Name.path (n : Name) : List String := [n.host, n.ns, n.model, n.tag]
+
+/-- every non-directory below manifests/ -/
+def Store.treeFiles (st : Store) : List (List String) := st.mans.map (fun p => p.1.path) ++ st.strays
+
+/-- `d` is a proper ancestor directory of `f` -/
+def isAncestor (d f : List String) : Bool := d.length < f.length && f.take d.length == d
+
+/-- the directories `os.MkdirAll(filepath.Dir(p))` makes sure exist -/
+def ancestors (p : List String) : List (List String) := ((List.range p.length).drop 1).map (fun k => p.take k)
+
+/-- `PruneDirectory(manifests)`: depth first, a directory is removed iff nothing is left in it — so exactly the
+    directories with no regular file or symlink anywhere below them go; files and symlinks are never touched -/
+def pruneDirs (st : Store) : Store :=
+  { st with edirs := st.edirs.filter (fun d => st.treeFiles.any (isAncestor d)) }
+
+def mkdirs (st : Store) (p : List String) : Store := { st with edirs := ancestors p ++ st.edirs }
+
+/-- every directory that exists below manifests/ -/
+def Store.dirs (st : Store) : List (List String) := st.treeFiles.flatMap ancestors ++ st.edirs
+
 /-! ## reading the store -/
 
 def Store.blob (st : Store) (k : String) : Option Bytes := aget st.blobs k
@@ -184,8 +212,10 @@ def Store.keyReferenced (st : Store) (k : String) : Bool :=
     | some m => m.all.any (fun l => l.digest.key == k)
     | none => false)
 
+/-- does `Manifests(false)` fail?  A manifest that does not parse — or a stray file at manifest depth, whose
+    name is not a valid tag ("bad manifest name") -/
 def Store.hasCorrupt (st : Store) : Bool :=
-  st.names.any (fun n => st.man n == some .corrupt)
+  st.names.any (fun n => st.man n == some .corrupt) || st.strays.any (fun p => p.length == 4)
 
 /-! ## primitive effects -/
 
@@ -553,13 +583,13 @@ def deleteAt (env : Env) (st : Store) (t : Name) : Store × List String :=
   match st.man t with
   | none => (st, ["h404"])
   | some .corrupt => (st, ["h500"])
-  | some (.readable m) => (removeLayers env (delManifest st t) m.all, ["h200"])
+  | some (.readable m) => (removeLayers env (pruneDirs (delManifest st t)) m.all, ["h200"])
 
 /-- `CopyHandler` / `CopyModel` after name resolution: the manifest FILE is copied byte for byte -/
 def copyAt (st : Store) (s d : Name) : Store × List String :=
   if s = d then (st, ["h200"]) else
   match st.man s with
-  | none => (st, ["h404"])
+  | none => (mkdirs st d.path, ["h404"])   -- MkdirAll of the destination comes before the source is opened
   | some f => (setManifest st d f, ["h200"])
 
 /-- `CreateBlobHandler` -/
@@ -597,7 +627,7 @@ def fixBlobs (st : Store) : Store :=
 /-- startup sequence of `Serve`: `fixBlobs`; then, unless some manifest fails to parse, `PruneLayers`
     (`PruneDirectory` only removes empty manifest directories) -/
 def pruneStartup (env : Env) (st : Store) : Store × List String :=
-  if st.hasCorrupt then (fixBlobs st, ["skip"]) else (pruneLayers env (fixBlobs st), ["ok"])
+  if st.hasCorrupt then (fixBlobs st, ["skip"]) else (pruneDirs (pruneLayers env (fixBlobs st)), ["ok"])
 
 /-- `ListHandler`: readable manifests whose config blob opens -/
 def listed (st : Store) : List Name :=
@@ -679,6 +709,8 @@ inductive Op
       (interrupted pull: `sha256-<hex>-partial[-N]`; crash inside `NewLayer`: `sha256-<digits>`; legacy stores:
       `sha256:<hex>`; anything else) -/
   | litter (n : JName) (c : Bytes)
+  /-- NOT an API operation: a stray regular file or dangling symlink at path `p` below manifests/ -/
+  | litterMan (p : List String)
   /-- NOT an API operation: a file named like a blob (`sha256-<64 hex>`, either case) is put there directly -/
   | litterBlob (k : String) (c : Bytes)
   /-- NOT an API operation: the manifest spells its model-layer digests `sha256-<hex>` (manifests written by
@@ -718,6 +750,7 @@ def step (env : Env) (st : Store) (op : Op) (ch : Choice) : Store × List String
     | none => (st, ["none"])
   | .litter n c => ({ st with junk := aset st.junk n c }, ["ok"])
   | .litterBlob k c => ({ st with blobs := aset st.blobs k c }, ["ok"])
+  | .litterMan p => ({ st with strays := p :: st.strays.filter (· ≠ p) }, ["ok"])
   | .dashify n =>
     match st.man n with
     | some (.readable m) => (setManifest st n (.readable m.dashed), ["ok"])
